@@ -51,6 +51,28 @@ var mwMaps = []func(k int) float64{
 	func(k int) float64 { return math.Exp(float64(k) / 4) },
 	func(k int) float64 { return -7 + 3*float64(k) },
 	func(k int) float64 { return float64(k)*1e-9 + 1e6 },
+	// the last two put the value 0 on rank 1 or 2; the occurrences of 0 are then written alternately as +0 and -0 (signedZeros):
+	// the two are the same number, so they tie with each other and order like one value
+	func(k int) float64 { return float64(k) - 1 },
+	func(k int) float64 { return float64(k) - 2 },
+}
+
+const mwZeroMaps = 4 // index of the first signed-zero map
+
+// signedZeros writes every other occurrence of 0 in the two samples as -0 (starting with the first in x1, the second in x2).
+func signedZeros(x1, x2 []float64) {
+	n := 0
+	for _, x := range [][]float64{x1, x2} {
+		for i, v := range x {
+			if v == 0 {
+				if n%2 == 0 {
+					x[i] = math.Copysign(0, -1)
+				}
+				n++
+			}
+		}
+		n++
+	}
 }
 
 func materialize(T, r []int, f func(int) float64) (x1, x2 []float64) {
@@ -108,6 +130,14 @@ func mwReplay(in io.Reader, raw bool, args []string) (*Summary, error) {
 					sum.viol("error", c, "alt %v: got (%v, %v) want error %v", alt, res, err, want)
 				}
 			}
+			if mc.Method == "errequal" && len(mc.T) == 1 { // all values equal also when they are a mixture of +0 and -0
+				z1, z2 := make([]float64, mc.N1), make([]float64, mc.N2)
+				signedZeros(z1, z2)
+				sum.Checks++
+				if res, err := stats.MannWhitneyUTest(z1, z2, stats.LocationDiffers); res != nil || !errors.Is(err, stats.ErrSamplesEqual) {
+					sum.viol("error", c, "samples %v and %v (zeros of both signs): got (%v, %v) want ErrSamplesEqual", z1, z2, res, err)
+				}
+			}
 			return
 		}
 		sum.Nontrivial++
@@ -162,6 +192,9 @@ func mwReplay(in io.Reader, raw bool, args []string) (*Summary, error) {
 					continue
 				}
 				x1, x2 := materialize(mc.T, al.R, f)
+				if mi >= mwZeroMaps {
+					signedZeros(x1, x2)
+				}
 				rng.Shuffle(len(x1), func(i, j int) { x1[i], x1[j] = x1[j], x1[i] })
 				rng.Shuffle(len(x2), func(i, j int) { x2[i], x2[j] = x2[j], x2[i] })
 				x1, ok1 := guarded(x1)
@@ -242,7 +275,7 @@ func mirrorKW(mc *mwCase, twoUs int) *big.Rat {
 
 var (
 	udistPrevT = map[[3]int][]int{}
-	udistBuf   = make([]int, 64)
+	udistBuf   = make([]int, 1024)
 )
 
 func udistReplay(in io.Reader, raw bool, args []string) (*Summary, error) {
@@ -340,6 +373,12 @@ func udistReplay(in io.Reader, raw bool, args []string) (*Summary, error) {
 						if got := d.CDF(x); !closeRat(got, wantB, 1e-12, 1e-9) {
 							sum.viol("CDF-below-grid", c, "T=%v: CDF(%.17g)=%.12g want %.12g (the value below the grid point %v)", d.T, x, got, rf(wantB), u)
 						}
+					}
+				}
+				if tu == 0 { // -0 is the number 0
+					nz := math.Copysign(0, -1)
+					if gc, gp := d.CDF(nz), d.PMF(nz); !closeRat(gc, wantC, 1e-12, 1e-9) || !closeRat(gp, wantP, 1e-12, 1e-9) {
+						sum.viol("negative-zero", c, "T=%v: CDF(-0)=%.12g PMF(-0)=%.12g want %.12g %.12g", d.T, gc, gp, rf(wantC), rf(wantP))
 					}
 				}
 				for _, off := range []float64{0, 0.25, 0.49} {
